@@ -26,6 +26,9 @@ type c09Case struct {
 	arms    []c09Arm
 	deflt   bool
 	ctx     int // nesting context
+	// a second match on the SAME union inside the same top-level definition
+	second *c09Case
+	shape  int // 1: second match inside the first arm of this one; 2: this one, then the second as the next statement; 3: this one in the then branch, the second in the else branch; 4: second first, then this one
 }
 
 var c09Names = []string{"Ca", "Cb", "Cc", "Cd", "Ce"}
@@ -58,10 +61,18 @@ func (c c09Case) key() string {
 		b.WriteString(":D")
 	}
 	fmt.Fprintf(&b, ":ctx%d", c.ctx)
+	if c.second != nil {
+		fmt.Fprintf(&b, ":shape%d:[%s]", c.shape, c.second.key())
+	}
 	return b.String()
 }
 
 func (c c09Case) uncovered() []string {
+	if c.second != nil {
+		first := c
+		first.second = nil
+		return append(first.uncovered(), c.second.uncovered()...)
+	}
 	if c.deflt {
 		return nil
 	}
@@ -126,6 +137,37 @@ func (c c09Case) source(pkg string) string {
 		}
 	}
 	b.WriteString("\ntype W =\n| Wrap of U\n| Other\n\n")
+	if c.second != nil {
+		m2 := *c.second
+		switch c.shape {
+		case 1:
+			// the second match sits in the first arm of the first one
+			lines := strings.Split(strings.TrimRight(c.matchLines("u", "  "), "\n"), "\n")
+			b.WriteString("let f (u:U) =\n" + lines[0] + "\n")
+			head := lines[1][:strings.Index(lines[1], "->")+2]
+			b.WriteString(head + "\n" + m2.matchLines("u", "    "))
+			for _, l := range lines[2:] {
+				b.WriteString(l + "\n")
+			}
+		case 2:
+			b.WriteString("let f (u:U) =\n  frt.Printf1 \"%d\\n\" (g u)\n" + m2.matchLines("u", "  "))
+			b.WriteString("\n")
+			// g is defined before f in the file: insert it above
+			src := b.String()
+			at := strings.Index(src, "let f (u:U) =")
+			src = src[:at] + "let g (u:U) =\n  0\n\n" + src[at:]
+			b.Reset()
+			b.WriteString(strings.Replace(src, "  frt.Printf1 \"%d\\n\" (g u)\n", strings.Replace(c.matchLines("u", "    "), "    match", "  let r1 =\n    match", 1)+"  frt.Printf1 \"%d\\n\" (r1 + g u)\n", 1))
+		case 3:
+			b.WriteString("let f (u:U) =\n  if 1 < 2 then\n" + c.matchLines("u", "    ") + "  else\n" + m2.matchLines("u", "    "))
+		default:
+			first := c
+			first.second = nil
+			b.WriteString("let f (u:U) =\n  let r1 =\n" + m2.matchLines("u", "    ") + "  frt.Printf1 \"%d\\n\" r1\n" + first.matchLines("u", "  "))
+		}
+		b.WriteString("\nlet Run () =\n  ()\n")
+		return b.String()
+	}
 	switch c.ctx {
 	case ctxParam:
 		b.WriteString("let f (u:U) =\n" + c.matchLines("u", "  "))
@@ -232,6 +274,38 @@ func c09Enumerate(tier string, rng *core.Rand) []c09Case {
 		c.ctx = 1 + k%(numCtx-1)
 		out = append(out, c)
 	}
+	// two matches on the same union inside one top-level definition, in four shapes: the
+	// verdict on one match must not depend on what another match on that union covered
+	nPairs := 3000
+	if tier == "thorough" {
+		nPairs = 40000
+	}
+	for k := 0; k < nPairs; k++ {
+		a := out[rng.Intn(base)]
+		if a.n < 2 {
+			continue
+		}
+		// partner: same union shape
+		var bb c09Case
+		found := false
+		for try := 0; try < 200 && !found; try++ {
+			bb = out[rng.Intn(base)]
+			if bb.n == a.n && fmt.Sprint(bb.payload) == fmt.Sprint(a.payload) {
+				// favour pairs in which exactly one of the two is incomplete
+				if (len(a.uncovered()) == 0) != (len(bb.uncovered()) == 0) || try > 100 {
+					found = true
+				}
+			}
+		}
+		if !found {
+			continue
+		}
+		a.ctx = ctxParam
+		bcopy := bb
+		a.second = &bcopy
+		a.shape = 1 + k%4
+		out = append(out, a)
+	}
 	return out
 }
 
@@ -274,7 +348,11 @@ func runC09(r *core.Run, tier string) {
 	for i, c := range cases {
 		o := results[i]
 		r.Eval(c.key(), c.n >= 2)
-		perCtx[fmt.Sprintf("ctx%d", c.ctx)]++
+		if c.second != nil {
+			perCtx[fmt.Sprintf("two-matches-shape%d", c.shape)]++
+		} else {
+			perCtx[fmt.Sprintf("ctx%d", c.ctx)]++
+		}
 		if o.wallOut {
 			r.Inconclusive("watchdog on " + c.key())
 			continue
@@ -285,7 +363,7 @@ func runC09(r *core.Run, tier string) {
 			nAccept++
 			if o.exit != 0 || !o.hasGen {
 				r.Violate("rejects-exhaustive:"+c.key(), fmt.Sprintf("exhaustive or default-terminated match rejected (exit=%d, gen=%v): %s", o.exit, o.hasGen, oneLineN(o.diag, 200)), files)
-			} else {
+			} else if c.second == nil {
 				accepted = append(accepted, i)
 			}
 		} else {
